@@ -179,7 +179,11 @@ class Schema:
         if tag == "name":
             if mutable:
                 return SName(z3.Select(ip.path.store_of(attr, Name), o.ref))
-            return SName(self.F(attr, Name)(o.ref))
+            t_ = self.F(attr, Name)(o.ref)
+            if attr == "sense" and (ip.exact_class(o) or o.cls) == "Constraint":
+                # class invariant of the frozen dataclass Constraint (established by __post_init__, proved in constraints_c)
+                ip.path.assume(z3.Or(t_ == sym.lit("<="), t_ == sym.lit(">="), t_ == sym.lit("==")))
+            return SName(t_)
         if tag == "real":
             if mutable:
                 return SReal(z3.Select(ip.path.store_of(attr, R), o.ref), "float")
